@@ -1342,8 +1342,11 @@ assignexpr(struct scope *s)
 		error(&tok.loc, "left side of assignment expression is not an lvalue");
 	next();
 	r = assignexpr(s);
-	if (!op)
-		return mkassignexpr(l, r);
+	if (!op) {
+		if (l->type->incomplete || !(l->type->prop & PROPSCALAR) && l->type->kind != TYPESTRUCT && l->type->kind != TYPEUNION)
+			error(&tok.loc, "left side of assignment expression has invalid type");
+		return mkassignexpr(l, exprassign(r, l->type));
+	}
 	/* rewrite `E1 OP= E2` as `T = &E1, *T = *T OP E2`, where T is a temporary slot */
 	if (l->kind == EXPRBITFIELD) {
 		bit = l;
